@@ -327,6 +327,13 @@ class Plugin:
                 cases.append({"kind": "in", "type": tn, "text": self._rand_text(rng, tn)})
             else:
                 cases.append(self._var_case(rng, tn))
+        # the first and the last representable day in every accepted notation of a zone (an aware value cannot be moved
+        # across either end)
+        for tn in ("dateTime", "dateTime.tz"):
+            for day in ("0001-01-01", "9999-12-31", "0001-01-02", "9999-12-30"):
+                for clock in ("T00:00:00", "T03:04:05", "T23:59:59", " 12:00:00"):
+                    for z in ("", "Z", "z", "+00:00", "+0000", "-00:00", "+01:00", "-0100", "+14:00", "-12:00"):
+                        cases.append({"kind": "in", "type": tn, "text": day + clock + z})
         return [c for c in cases if self._printable(c)]
 
     def _printable(self, case):
